@@ -276,6 +276,61 @@ def trace_check(ctx):
         _trace_check(ctx, base)
     finally:
         shutil.rmtree(base, ignore_errors=True)
+    for inject in ("renameat2:error=EINVAL", "renameat2:error=ENOSYS"):
+        base = tempfile.mkdtemp(prefix="rv-c06f-")
+        try:
+            _fallback_trace(ctx, base, inject)
+        finally:
+            shutil.rmtree(base, ignore_errors=True)
+
+
+def _fallback_trace(ctx, base, inject):
+    """The code paths taken when renameat2(RENAME_EXCHANGE) is not available (other kernels / file systems): a collection is
+    replaced twice; every file-system modification must stay inside the storage folder."""
+    folder = os.path.join(base, "storage")
+    os.makedirs(folder)
+    conf = {"auth": {"type": "none"}, "rights": {"type": "vlib.x_rights_all"}, "web": {"type": "none"}}
+    whole = "BEGIN:VCALENDAR\r\nPRODID:-//v//EN\r\nVERSION:2.0\r\n%sEND:VCALENDAR\r\n"
+    ev = ("BEGIN:VEVENT\r\nUID:%s\r\nDTSTAMP:20130101T000000Z\r\nDTSTART:20130901T180000Z\r\nDTEND:20130901T190000Z\r\n"
+          "SUMMARY:s\r\nEND:VEVENT\r\n")
+    reqs = [dict(method="MKCOL", path="/user/", login="user:", mark="f0"),
+            dict(method="PUT", path="/user/cal/", data=whole % (ev % "a" + ev % "b"), login="user:", mark="f1"),
+            dict(method="PUT", path="/user/cal/", data=whole % (ev % "c"), login="user:", mark="f2"),
+            dict(method="MKCALENDAR", path="/user/cal2/", login="user:", mark="f3"),
+            dict(method="PUT", path="/user/cal2/", data=whole % (ev % "d"), login="user:", mark="f4"),
+            dict(method="DELETE", path="/user/cal/", login="user:", mark="f5")]
+    spec, outp, tr = os.path.join(base, "spec.json"), os.path.join(base, "out.json"), os.path.join(base, "trace.txt")
+    json.dump(dict(folder=folder, conf=conf, requests=reqs), open(spec, "w"))
+    rc, out = trace.run_traced([core.PY, os.path.join(core.VERIF, "vlib/drivers/req_driver.py"), spec, outp], tr, timeout=300,
+                               inject=inject)
+    if rc != 0 or not os.path.exists(outp):
+        ctx.obligation("trace:fallback-driver-ran(%s)" % inject, False, out[-1500:])
+        return
+    real_folder = os.path.realpath(folder)
+    started = False
+    for e in trace.parse(tr):
+        if e.call in ("stat", "newfstatat", "statx", "lstat") and e.paths and e.paths[0].startswith(trace.MARK_PREFIX):
+            started = True
+            continue
+        if not started:
+            continue
+        is_mut = e.call in trace.MUTATING or (e.call in ("open", "openat", "creat") and re.search(r"O_WRONLY|O_RDWR|O_CREAT|O_TRUNC", e.args))
+        if not is_mut or e.ret is None or e.ret < 0:
+            continue
+        at_call = e.call.endswith("at") or e.call.endswith("at2")
+        for p_ in (e.resolved if (at_call and e.resolved) else e.paths):
+            if not p_ or not p_.startswith("/") or p_.startswith(("/dev/", "/proc/", "/rv-mark/")):
+                continue
+            ap = os.path.normpath(p_)
+            if ap == os.path.normpath(outp):
+                continue                              # the driver's own result file
+            ctx.count("fallback-mutations")
+            if not (ap == real_folder or ap.startswith(real_folder + "/")):
+                ctx.case(("fallback", inject, e.call), nontrivial=True)
+                ctx.violation("C06 trace (%s): %s on %r, outside the storage folder, while a collection is replaced" % (inject, e.call, ap),
+                              dict(inject=inject, requests=[dict(method=r["method"], path=r["path"]) for r in reqs], event=repr(e)))
+                return
+    ctx.case(("fallback", inject), nontrivial=True)
 
 
 def _trace_check(ctx, base):
@@ -396,6 +451,15 @@ def _trace_check(ctx, base):
         hostile.append(dict(method="MOVE", path="/user/cal/mvr%d.ics" % k, login="user:", mark="hr%d-dest" % k, channel="dest", hostile=rn,
                             headers={"HTTP_DESTINATION": "http://127.0.0.1" + rn, "HTTP_HOST": "127.0.0.1", "HTTP_OVERWRITE": "T"}))
         k += 1
+    # every way of LISTING the collections that hold planted reserved entries (files and folders put there by an editor,
+    # a restore or a snapshot tool): none of their names or contents may show up
+    cq = ('<?xml version="1.0"?><C:calendar-query xmlns:D="DAV:" xmlns:C="urn:ietf:params:xml:ns:caldav"><D:prop><D:getetag/>'
+          '<C:calendar-data/></D:prop><C:filter><C:comp-filter name="VCALENDAR"/></C:filter></C:calendar-query>')
+    for li, (m, pth, dat, hd) in enumerate([
+            ("PROPFIND", "/user/", PROPFIND_BODY, {"HTTP_DEPTH": "1"}), ("PROPFIND", "/user/cal/", PROPFIND_BODY, {"HTTP_DEPTH": "1"}),
+            ("PROPFIND", "/", PROPFIND_BODY, {"HTTP_DEPTH": "1"}), ("REPORT", "/user/cal/", cq, {}), ("REPORT", "/user/cal/", sync_body(""), {}),
+            ("GET", "/user/cal/", None, {}), ("GET", "/user/", None, {})]):
+        hostile.append(dict(method=m, path=pth, data=dat, login="user:", headers=hd, mark="hl%d-listing" % li, channel="listing", hostile=""))
     # every template placeholder as a login, together with shell syntax in the path of the same request (two
     # channels that are harmless alone)
     for ph in ("%(path)s", "x%(path)sy", "%(cwd)s", "%(user)s", "%s", "%(nope)s"):
@@ -504,6 +568,10 @@ def _trace_check(ctx, base):
             from urllib.parse import urlparse as _up
             if reserved_target(_up(r["headers"]["HTTP_DESTINATION"]).path):
                 first_violation = first_violation or ("MOVE onto a reserved name answered %s" % res.get("status"), r, None)
+        if r.get("channel") == "listing":
+            for rname in ("e1.ics~", ".secret.ics", ".hiddencol", "e1.ics%7E", "%2Esecret", "%2Ehiddencol"):
+                if rname in body:
+                    first_violation = first_violation or ("a listing names the reserved entry %r" % rname, r, None)
         if "DECOY-SECRET" in body:
             first_violation = first_violation or ("decoy content in response", r, None)
         if r.get("mark", "").startswith("h") and res.get("status") == 200 and r["method"] == "GET":
